@@ -405,5 +405,60 @@ theorem bumpComms_zero (comms : List (LComm F)) : bumpComms (fun _ => 0) comms =
   intro c _
   simp [bumpC]
 
+/-! ### the same proof at another position of the sponge stream -/
+
+/-- `succinct_check` depends on the statement and on the sponge only through the result of the
+combining loop: a statement / sponge position whose loop ends in `(Ĉ + eC, v̂ + eV)` gives — with the
+random-oracle outputs held fixed — the same run with `C`, `V` shifted -/
+theorem succinctRun_congr_pos (vk : VK F) (cs cs' : List (LComm F)) (z : F) (vs vs' : List F)
+    (π : Proof F) (cur cur' : F) (ξs ξs' ros : List F) (C V eC eV : F) (rest rest' : List F)
+    (h1 : accLoop vk z cs vs cur ξs 0 0 = .ok ((C, V), rest))
+    (h2 : accLoop vk z cs' vs' cur' ξs' 0 0 = .ok ((C + eC, V + eV), rest'))
+    (r : Run F) (ξr ror : List F)
+    (hr : succinctRun vk cs z vs π (cur :: ξs) ros = .ok (r, ξr, ror)) :
+    succinctRun vk cs' z vs' π (cur' :: ξs') ros
+      = .ok (⟨r.C + eC, r.V + eV, r.ξ₀, r.us, r.lr⟩, rest', ror) := by
+  unfold succinctRun at hr ⊢
+  simp only at hr ⊢
+  rw [h1] at hr
+  rw [h2]
+  simp only at hr ⊢
+  have hadj : ∀ C' ros1, hidingAdjust vk π C ros = .ok (C', ros1) →
+      hidingAdjust vk π (C + eC) ros = .ok (C' + eC, ros1) := by
+    intro C' ros1 h
+    unfold hidingAdjust at h ⊢
+    split at h
+    · cases h
+    · rename_i hne
+      rw [if_neg hne]
+      split at h
+      · split at h
+        · cases h
+        · injection h with h; injection h with ha hb
+          subst ha; subst hb
+          congr 2; ring
+      · injection h with h; injection h with ha hb
+        subst ha; subst hb; rfl
+  cases hadj' : hidingAdjust vk π C ros with
+  | error e => rw [hadj'] at hr; cases hr
+  | ok y =>
+    obtain ⟨C', ros1⟩ := y
+    rw [hadj'] at hr
+    rw [hadj C' ros1 hadj']
+    simp only at hr ⊢
+    cases ros1 with
+    | nil => cases hr
+    | cons ξ₀ ros2 =>
+      simp only at hr ⊢
+      cases hvr : verifyRounds π.lVec π.rVec ros2 with
+      | error e => rw [hvr] at hr; cases hr
+      | ok w =>
+        obtain ⟨us, lr, ros3⟩ := w
+        rw [hvr] at hr
+        simp only at hr ⊢
+        injection hr with hr; injection hr with h1 h2
+        injection h2 with _ h3
+        subst h1; subst h3; rfl
+
 end IPA
 end PCV
